@@ -220,8 +220,22 @@ func (s *Server) serve(w http.ResponseWriter, r *http.Request) {
 		lo, hi := paginate(len(sel))
 		out := []map[string]any{}
 		for _, i := range sel[lo:hi] {
+			// the labels the issue carries now (a real GitLab always sends the field)
+			set := map[string]bool{}
+			for _, e := range i.Labels {
+				if e.Action == "add" {
+					set[e.Label] = true
+				} else {
+					delete(set, e.Label)
+				}
+			}
+			cur := []string{}
+			for l := range set {
+				cur = append(cur, l)
+			}
+			sort.Strings(cur)
 			out = append(out, map[string]any{
-				"id": 5000 + i.IID, "iid": i.IID, "project_id": s.ProjectID, "title": i.Title, "description": i.Description, "state": i.State,
+				"id": 5000 + i.IID, "iid": i.IID, "project_id": s.ProjectID, "title": i.Title, "description": i.Description, "state": i.State, "labels": cur,
 				"author": userRef(s.Users[i.AuthorID]), "created_at": ts(i.CreatedAt), "updated_at": ts(i.UpdatedAt),
 				"web_url": fmt.Sprintf("%sgroup/project/-/issues/%d", s.HTTP.URL+"/", i.IID),
 			})
